@@ -291,6 +291,12 @@ def legs_minipy(res, r, tier):
 
 # ------------------------------------------------------------------------------------------------ execution oracle
 TEMPLATES = [
+    # class bodies nested in functions that read the function's locals directly, with attributes named like the names the renamer hands out
+    "def make(scale):\n    limit = scale * 10\n    class Config:\n        A = 'alpha'\n        B = 'beta'\n        C = 'gamma'\n        threshold = limit\n        def D(self):\n            return limit\n    return Config.threshold, Config.A, Config.B, Config().D()\nprint(make(3))\n",
+    "def build(prefix, suffix):\n    joined = prefix + suffix\n    class Names:\n        A = 1\n        B = 2\n        class C:\n            inner = joined\n        first = joined\n        second = [joined for _ in range(1)]\n    return Names.first, Names.C.inner, Names.second, Names.A, Names.B\nprint(build('p', 's'))\n",
+    "def tagged():\n    class Tags:\n        A = 'shared text'\n        B = 'shared text'\n        C = 'shared text', 'shared text', 'shared text'\n        D = 'other text', 'other text', 'other text', 'other text'\n    return Tags.A, Tags.B, Tags.C, Tags.D\nprint(tagged())\n",
+    # literal arithmetic in header contexts (defaults, decorator arguments, class keywords) next to hoisting and renaming
+    "def deco(arg):\n    def wrap(fn):\n        fn.arg = arg\n        return fn\n    return wrap\n@deco(True | False)\ndef configure(strict=True | False, verbose=True & True, *, check=False | True):\n    return strict, verbose, check, True\nprint(configure(), configure.arg)\ndef scaled(unit=0.5 + 0.5, base=1.5 - 0.5, *, zero=1.0 - 1.0):\n    return unit, base, zero, 1.0, 0.0\nprint(scaled())\n",
     "def build(flag):\n    class Settings:\n        if flag:\n            timeout: int = 30\n            retries: int = 3\n        else:\n            timeout: int = 5\n        with open(__file__) if False else memoryview(b'') as handle:\n            buffered: bool = True\n        try:\n            verbose: bool = False\n        finally:\n            pass\n    return Settings\ninstance = build(True)()\nprint(instance.timeout, instance.retries, build(False).timeout, instance.buffered, instance.verbose)\n",
     # closures, defaults, keyword calls
     "def make_counter(start, step=1):\n    count = start\n    def increment(times=1):\n        nonlocal count\n        count += step * times\n        return count\n    return increment\ncounter = make_counter(10, step=2)\nprint(counter(), counter(times=3))\nresult = counter(times=0)\n",
